@@ -1028,9 +1028,14 @@ class Interp:
         if isinstance(e, ast.Constant):
             return K(e.value)
         if isinstance(e, ast.BoolOp):
-            op = 'and' if isinstance(e.op, ast.And) else 'or'
+            # value semantics (x or y yields x or y, not a bool)
+            op = 'vand' if isinstance(e.op, ast.And) else 'vor'
             return T(op, *[self._pure_term(v, binding, fr)
                            for v in e.values])
+        if isinstance(e, ast.Subscript) and not isinstance(e.slice,
+                                                           ast.Slice):
+            return T('sub', self._pure_term(e.value, binding, fr),
+                     self._pure_term(e.slice, binding, fr))
         if isinstance(e, ast.UnaryOp) and isinstance(e.op, ast.Not):
             return T('not', self._pure_term(e.operand, binding, fr))
         if isinstance(e, ast.Compare) and len(e.ops) == 1:
@@ -1397,6 +1402,15 @@ class Interp:
             margs = [self.eval(a, fr) for a in e.args]
             new = self.rebind_methods[e.func.attr](self, base, margs)
             fr.env[e.func.value.id] = new
+            # the receiver object was changed in place: every other local
+            # that holds it, or a term built from it, sees the change
+            if new != base:
+                memo = {}
+                for k, v in list(fr.env.items()):
+                    if isinstance(v, T) and k != e.func.value.id:
+                        nv = _subst(v, base, new, memo)
+                        if nv is not v:
+                            fr.env[k] = nv
             return new
         f = self.eval(e.func, fr)
         args = []
@@ -1642,6 +1656,22 @@ class Interp:
             raise Inexact('yield')
         v = self.eval(e.value, fr) if e.value is not None else K(None)
         return self.on_yield(self, v)
+
+
+def _subst(t, old, new, memo):
+    """*t* with every occurrence of the term *old* replaced by *new*."""
+    if t == old:
+        return new
+    if not isinstance(t, T):
+        return t
+    r = memo.get(t)
+    if r is not None:
+        return r
+    args = tuple(_subst(a, old, new, memo) if isinstance(a, T) else a
+                 for a in t.args)
+    r = t if all(a is b for a, b in zip(args, t.args)) else T(t.op, *args)
+    memo[t] = r
+    return r
 
 
 def _load(t):
